@@ -31,6 +31,7 @@ package rollout
 
 //@ define strat(c) = c.Rollout.Spec.Strategy
 //@ define substatus(c) = ite(c.NewStatus.CanaryStatus != nil, &c.NewStatus.CanaryStatus.CommonStatus, ite(c.NewStatus.BlueGreenStatus != nil, &c.NewStatus.BlueGreenStatus.CommonStatus, nil))
+//@ define substatusOf(c) = ite(strat(c).BlueGreen != nil, &c.NewStatus.BlueGreenStatus.CommonStatus, &c.NewStatus.CanaryStatus.CommonStatus)
 //@ define allSteps(c) = ite(strat(c).BlueGreen != nil, strat(c).BlueGreen.Steps, strat(c).Canary.Steps)
 
 //@ func newTrafficRoutingContext
@@ -324,6 +325,7 @@ package rollout
 //@ requires r != nil && rollout != nil && (rollout.Spec.Strategy.BlueGreen != nil || rollout.Spec.Strategy.Canary != nil)
 //@ ensures result1 == nil ==> result0 != nil
 //@ ensures always_found: result1 == nil
+//@ ensures picks_by_strategy: (rollout.Spec.Strategy.BlueGreen == nil ==> result0.tag == typeid("*github.com/openkruise/rollouts/pkg/controller/rollout.canaryReleaseManager") && iref(result0) == r.canaryManager) && (rollout.Spec.Strategy.BlueGreen != nil ==> result0.tag == typeid("*github.com/openkruise/rollouts/pkg/controller/rollout.blueGreenReleaseManager") && iref(result0) == r.blueGreenManager)
 
 //@ func (*RolloutReconciler).doProgressingInRolling
 //@ props C02 C10
@@ -368,3 +370,15 @@ package rollout
 //@ ensures inv_preserved: resetCursorInv(c)
 //@ ensures gateway_before_release: old(hasTR(c)) && #removeBR > 0 ==> @routesWithdrawn
 //@ ensures done_means_all_done: result0 && old(hasTR(c)) && old(substatus(c)) != nil ==> result1 == nil && #removeCanarySvc == 1 && #removeCanarySvc.ret1 == nil
+
+// ---------- normal rolling: the release manager is chosen by the strategy; user-editable indices are corrected (C09) ----------
+
+//@ func (*RolloutReconciler).handleNormalRolling
+//@ props C02 C09
+//@ requires r != nil && r.canaryManager != nil && r.blueGreenManager != nil && r.canaryManager.trafficRoutingManager != nil && r.blueGreenManager.trafficRoutingManager != nil
+//@ requires c != nil && c.Rollout != nil && c.NewStatus != nil && c.Workload != nil && (strat(c).BlueGreen != nil || strat(c).Canary != nil)
+//@ requires status_matches_strategy: (strat(c).BlueGreen != nil ==> c.NewStatus.BlueGreenStatus != nil && c.NewStatus.CanaryStatus == nil) && (strat(c).BlueGreen == nil ==> c.NewStatus.CanaryStatus != nil)
+//@ requires index_in_range: 1 <= substatusOf(c).CurrentStepIndex && substatusOf(c).CurrentStepIndex <= len(allSteps(c))
+//@ requires substatusOf(c).LastUpdateTime != nil
+//@ requires replicas_set: forall k :: 0 <= k && k < len(allSteps(c)) ==> allSteps(c)[k].Replicas != nil
+// NOTE: no assumption at all on NextStepIndex - it is a documented user-editable field
